@@ -1,6 +1,6 @@
 (** C31 — full-strength statements, their refutations (witnesses reproduced on
-    the Go code by the harness streams w-proxy-inner, w-delay-group,
-    w-proxy-outer) and non-vacuity examples. *)
+    the Go code by the harness streams w-proxy-inner, w-proxy-outer) and
+    non-vacuity examples. *)
 From Coq Require Import List ZArith NArith Bool String.
 From C33 Require Import Lib.Harness C31.Model C31.Spec C31.Proofs.
 Import ListNotations.
@@ -18,10 +18,6 @@ Definition C31_blocked_position_rejected_full : Prop :=
 Definition C31_pool_rejects_at_every_height_full : Prop :=
   forall cks L set e b,
     parse_list cks L = Some set -> touches cks L e b = true -> pool_rejects cks set b = true.
-
-Definition C31_delay_rejects_full : Prop :=
-  forall cks L set e b,
-    parse_list cks L = Some set -> touches cks L e b = true -> delay_rejects cks set b = true.
 
 Definition C31_executor_rejects_full : Prop :=
   forall cks L set e b,
@@ -64,13 +60,6 @@ Proof.
   specialize (F T). vm_compute in F. discriminate.
 Qed.
 
-Lemma delay_full_refuted : ~ C31_delay_rejects_full.
-Proof.
-  intro F. specialize (F nock wL wset env10 w_group wL_parses).
-  assert (T : touches nock wL env10 w_group = true) by (vm_compute; reflexivity).
-  specialize (F T). vm_compute in F. discriminate.
-Qed.
-
 Lemma executor_full_refuted : ~ C31_executor_rejects_full.
 Proof.
   intro F. specialize (F nock wL wset env10 w_proxy_outer wL_parses).
@@ -94,7 +83,8 @@ Lemma proxy_inner_before_fork :
   touches nock wL env9 w_proxy_inner = true /\
   pool_rejects nock wset w_proxy_inner = false /\
   prod_rejects nock wset env9 w_proxy_inner = false /\
-  exec_receipts nock wset env9 w_proxy_inner [2] = [2].
+  exec_receipts nock wset env9 w_proxy_inner [2] = [2] /\
+  delay_rejects nock wset w_proxy_inner = false.
 Proof. vm_compute. repeat split; reflexivity. Qed.
 
 (** non-vacuity: the hypotheses of the positive theorems are satisfiable *)
@@ -106,9 +96,12 @@ Example ex_plain_single :
   touches nock wL env10 (BSingle tx_to_X None) = true /\ active env10 = true /\ (e_h env10 <> 0)%Z.
 Proof. vm_compute. repeat split; try reflexivity. discriminate. Qed.
 
+(* the group whose second member alone touches the list: every point looks at it,
+   the delay entry points included (checkDelayTxBlocked expands the group) *)
 Example ex_group_view :
   exec_view_touches nock wL env10 w_group = true /\ outer_touches nock wL w_group = true /\
-  head_touches nock wL w_group = false.
+  hit nock wset tx_none = false /\ delay_rejects nock wset w_group = true /\
+  delay_reply nock wset w_group ROk = RBlocked.
 Proof. vm_compute. repeat split; reflexivity. Qed.
 
 Example ex_proxy_view :
